@@ -189,6 +189,43 @@ def cp3_writeback(l0: int, l1: int, l2: int, pil: int, e01: bool, e02: bool, e12
     return verdict(ok, nontrivial=len(edges) > 0, sample=lambda: {"lat": [l0, l1, l2], "p_index_latency": pil, "edges": {str(k): v for k, v in edges.items()}, "total": total})
 
 
+def cp3_storeload(l0: int, l1: int, l2: int, fwd: int, e01: bool, same: bool, e02: bool) -> bool:
+    """
+    pre: 0 <= l0 <= 40 and 0 <= l1 <= 40 and 0 <= l2 <= 40 and 0 <= fwd <= 20
+    post: _
+    """
+    # a chain through memory: producer -> store (own latency l1, e.g. a read-modify-write) -> load of the
+    # same location; the store->load link weighs the store's latency plus the model's forwarding latency
+    if not _in_shard([e01, same, e02]):
+        return True
+    if skip(locals()):
+        return True
+    from osaca.parser.memory import MemoryOperand
+    from osaca.parser.immediate import ImmediateOperand
+    from vp.synth import mk_model, class_reg
+    isa = "x86"
+    model = mk_model(isa, ports=["0"], store_to_load_forward_latency=fwd)
+    st_mem = MemoryOperand(base=class_reg(isa, 6), offset=ImmediateOperand(value=8))
+    ld_mem = MemoryOperand(base=class_reg(isa, 6), offset=ImmediateOperand(value=8 if same else 24))
+    i0 = iform(1, src=[class_reg(isa, 7)], dst=[class_reg(isa, 0)], lat=l0)
+    i1 = iform(2, src=[class_reg(isa, 0)] if e01 else [class_reg(isa, 8)], dst=[st_mem], lat=l1, flags=[INSTR_FLAGS.HAS_ST])
+    i2 = iform(3, src=[ld_mem] + ([class_reg(isa, 0)] if e02 else []), dst=[class_reg(isa, 2)], lat=l2, flags=[INSTR_FLAGS.HAS_LD, INSTR_FLAGS.LD])
+    g = DG([i0, i1, i2], NativeParser(PX), model=model)
+    cp = g.get_critical_path()
+    total = sum([x.latency_cp for x in cp])
+    edges = {}
+    if e01:
+        edges[(0, 1)] = l0
+    if same:
+        edges[(1, 2)] = l1 + fwd
+    if e02:
+        edges[(0, 2)] = l0
+    want = ref_longest(3, edges, [l0, l1, l2])
+    chain = [x.line_number - 1 for x in cp]
+    ok = total == want and all((a, b) in edges for a, b in zip(chain, chain[1:]))
+    return verdict(ok, nontrivial=same, sample=lambda: {"lat": [l0, l1, l2], "forwarding": fwd, "edges": {str(k): v for k, v in edges.items()}, "total": total, "chain": chain})
+
+
 def cp3_a64(e01: bool, e02: bool, e12: bool, l0: int, l1: int, l2: int, w0: int, w1: int, w2: int,
             d0: bool, d1: bool, d2: bool) -> bool:
     """
@@ -288,13 +325,90 @@ def examples(ex: int, fixed: bool) -> bool:
     return verdict(ok, nontrivial=nt, sample=sample)
 
 
+# ---- what the text report marks as critical path (CP column of the combined view) ----------------------
+
+MARK_LATS = [0.0, 1.0, 3.0, 12.5]
+
+
+def _marks_concrete(ebits, lat_idx, n):
+    import re
+    from harness.c13_report import _frontend
+    names = ["rax", "rbx", "rcx", "rdx"]
+    e, k = {}, 0
+    for i in range(n):
+        for j in range(i + 1, n):
+            e[(i, j)] = bool(ebits[k])
+            k += 1
+    lat = [MARK_LATS[x] for x in lat_idx[:n]]
+    kernel = []
+    for i in range(n):
+        f = iform(i + 1, src=[reg("x86", names[j]) for j in range(i) if e[(j, i)]], dst=[reg("x86", names[i])], lat=lat[i], tp=1.0,
+                  pressure=[1.0, 0.0], uops=[[1, ["0"]]], line="op%d" % i)
+        f._comment_id = None
+        kernel.append(f)
+    g = DG(kernel, NativeParser(PX), lcd=True)
+    fe = _frontend(["0", "1"])
+    text = fe.full_analysis(kernel, g, ignore_unknown=True)
+    body = text[text.index("Combined Analysis Report"):text.index("Loop-Carried Dependencies Analysis Report")]
+    klines = [l for l in body.split("\n") if re.match(r"^\s*\d+ \|", l)]
+    marked, col = [], 0.0
+    for kl in klines:
+        cell = kl.split("|")[-3].strip()
+        if cell != "":
+            marked.append(int(kl[:4]) - 1)
+            col += float(cell)
+    totals = [l for l in body.split("\n") if l.startswith("      ") and re.search(r"\d", l) and "|" not in l]
+    shown_total = float(totals[0].split()[-2]) if totals else None
+    t_clean, t_gen, edges = _ref(n, e, lat, lat, [False] * n)
+    ok = len(klines) == n and shown_total is not None and abs(shown_total - t_clean) < 0.05 + 1e-9
+    ok = ok and abs(col - t_clean) < 0.05 * n + 1e-9                          # the column adds up to the total
+    ok = ok and all(a < b and e[(a, b)] for a, b in zip(marked, marked[1:]))  # consecutive marked lines are linked
+    cl = _chain_len(marked, e, lat, lat, [False] * n)
+    ok = ok and cl is not None and any(abs(t_clean - c) < 1e-9 for c in cl)   # and form a longest chain
+    return ok, len(edges) > 0, {"lat": lat, "edges": [list(x) for x, v in e.items() if v], "marked_lines": [m + 1 for m in marked], "column_sum": col, "shown_total": shown_total, "reference": t_clean}
+
+
+def cp_marks(e01: bool, e02: bool, e12: bool, l0: int, l1: int, l2: int) -> bool:
+    """
+    pre: 0 <= l0 < 4 and 0 <= l1 < 4 and 0 <= l2 < 4
+    post: _
+    """
+    if skip(locals()):
+        return True
+    from vp.symx import pick, native
+    lo, hi = shard(16)
+    if not (lo <= l0 * 4 + l1 < hi):
+        return True
+    ok, nt, sample = native(_marks_concrete, [bool(e01), bool(e02), bool(e12)], [pick(l0, 4), pick(l1, 4), pick(l2, 4)], 3)
+    return verdict(ok, nontrivial=nt, sample=sample)
+
+
+def cp_marks4(e01: bool, e02: bool, e03: bool, e12: bool, e13: bool, e23: bool, l0: int, l1: int, l2: int, l3: int) -> bool:
+    """
+    pre: 0 <= l0 < 3 and 0 <= l1 < 3 and 0 <= l2 < 3 and 0 <= l3 < 3
+    post: _
+    """
+    if skip(locals()):
+        return True
+    from vp.symx import pick, native
+    if not _in_shard([e01, e02, e03, e12, e13, e23]):
+        return True
+    ok, nt, sample = native(_marks_concrete, [bool(x) for x in (e01, e02, e03, e12, e13, e23)], [pick(l0, 3), pick(l1, 3), pick(l2, 3), pick(l3, 3)], 4)
+    return verdict(ok, nontrivial=nt, sample=sample)
+
+
 CELLS = {
     "cp3_x86_ld1": {"fn": cp3_x86_ld1, "tiers": ("quick",), "bound": "n=3, all 8 dependency structures, lat ints in [0,40]; at most one instruction (symbolic position) has a load stage with symbolic wo <= lat",
                     "budget": {"quick": 170}, "shards": 16},
     "cp3_writeback": {"fn": cp3_writeback, "bound": "n=3, instruction 0 = post-indexed load (data + base write-back); consumers read data or written-back base (edge weight = symbolic p_index_latency 0..10, independent of the producer latency); int latencies 0..40",
                       "budget": {"quick": 170, "thorough": 600}, "shards": 8},
+    "cp3_storeload": {"fn": cp3_storeload, "bound": "n=3: producer -> store with its own latency -> load of the same / another location; all int latencies 0..40, forwarding latency 0..20 symbolic; the link through memory weighs store latency + forwarding latency",
+                      "budget": {"quick": 170, "thorough": 600}, "shards": 8},
     "examples": {"fn": examples, "bound": "16 shipped example/test kernels on zen1/zen2/tx2 (real parser, ISA data, models): reported CP vs independent longest path over the graph's edges, marked lines form a chain, per-line values add up",
                  "budget": {"quick": 170, "thorough": 300}, "shards": 4},
+    "cp_marks": {"fn": cp_marks, "bound": "n=3, all 8 dependency structures, latencies from {0, 1, 3, 12.5}: the lines carrying a value in the CP column of the real text report are linked consecutively by dependencies, form a longest chain of the reference, and the column adds up to the printed CP total (zero-latency members included)",
+                 "budget": {"quick": 170, "thorough": 300}, "shards": 16},
+    "cp_marks4": {"fn": cp_marks4, "tiers": ("thorough",), "bound": "same for n=4, all 64 structures, latencies from {0, 1, 3}", "budget": {"thorough": 900}, "shards": 16},
     "cp3_x86": {"fn": cp3_x86, "tiers": ("thorough",), "bound": "n=3, all 8 dependency structures, lat/wo ints in [0,40], load stage per instruction symbolic",
                 "budget": {"thorough": 900}, "shards": 32},
     "cp3_a64": {"fn": cp3_a64, "tiers": ("thorough",), "bound": "as cp3_x86 with the AArch64 alias predicate", "budget": {"thorough": 900}, "shards": 16},
@@ -305,7 +419,7 @@ CELLS = {
 META = {
     "functions": ["osaca.semantics.kernel_dg.KernelDG.create_DG", "KernelDG.find_depending", "KernelDG.is_read", "KernelDG.is_written",
                   "KernelDG.get_critical_path", "networkx.dag_longest_path (traced, symbolic weights)",
-                  "CP total as in Frontend.full_analysis_dict: sum(latency_cp of returned lines)"],
+                  "CP total as in Frontend.full_analysis_dict: sum(latency_cp of returned lines)", "Frontend.full_analysis / combined_view / _get_lcd_cp_ports (CP column; cp_marks cells)"],
     "bounds": "kernels of 3 (quick) / 4 (thorough) instructions, each writing its own register; every dependency structure; all integer latencies 0..40 with 0<=wo<=lat",
     "outside": "n > 4 for generated kernels; shipped kernels other than the 16 listed in harness/_pipeline.py (for those the edge set is taken from the real graph, only the longest-path step is recomputed)",
     "assumptions": ["oracle accepts either reading of 'execution latency of the last instruction' (with or without its own load stage when reached through a predecessor); both are >= every single latency and count a leading load stage once",
